@@ -1,4 +1,5 @@
 import Verif.Proofs.LangTrace
+import Verif.Proofs.LangVM5
 /-!
 # C52 — Evaluation order and short-circuiting follow the language definition
 
@@ -390,5 +391,33 @@ theorem nilcoalesce_witness :
     (eval prog 13 (.coalesce (.int .int) left (ci "#2" 5)) ⟨[]⟩).out = .ok (.int .int 5) := by
   dsimp only
   exact ⟨rfl, by decide, rfl⟩
+
+open Verif.Model.Lang.VM in
+/-- **vm_same_partial** (`C52_vm_same`, instance of the C34 simulation): the log trace of the compiled
+program on the model stack machine is identical to the evaluator's.  For every program `p` that the
+model compiler accepts (`compile p = some tbl`) and that lies in the fragment `progOk` of
+`C34.simulation_call_partial` — no structs, functions with at most one parameter, statements `let`/`var`,
+assignment to a variable, `if`/`else`, `while` with `break`/`continue`, `return`, expression statements,
+where each value / statement expression is call-free or a single invocation (`log`, `assert`, user
+functions, recursion) with call-free arguments — and every fuel `n` for which the evaluator's `run p n`
+ends with a value `v`: the machine `runVM tbl m` (some fuel `m`) ends with the same value and **exactly
+the same sequence of log lines**, the lines of all activations in the same order.
+Missing: invocations nested inside operands, argument lists and conditions (the forms whose relative
+order `binary`, `args`, `and_`, `or_`, … above fix for the evaluator — for these the two engines are tied
+only by the stream `evalorder`), runs that end in an error (the trace up to the error), functions with
+several parameters, L1. -/
+theorem vm_same_partial (p : Program) (tbl : Table) (hc : compile p = some tbl) (hok : progOk p = true)
+    (n : Nat) (v : Value) (h : (run p n).out = .ok v) :
+    ∃ m, (runVM tbl m).tr = (run p n).tr ∧ (runVM tbl m).out = .ok v := by
+  obtain ⟨m, hm⟩ := sim_program p tbl (compile_tableOk p tbl hc hok) n v _ _ (Verif.Model.Lang.VM.Res.eta_ok h)
+  exact ⟨m, by rw [hm], by rw [hm]⟩
+
+open Verif.Model.Lang.VM in
+-- non-vacuity: the example program of C34 (`f` logs its argument, `main` calls it in a loop and logs)
+-- is in the fragment and its evaluator trace is "0", "1", "2"
+example : (compile exProg).isSome = true ∧ progOk exProg = true ∧
+    (match (run exProg 40).out with | .ok _ => true | _ => false) = true ∧
+    (run exProg 40).tr = ["0", "1", "2"] := by
+  refine ⟨by decide, by decide, by decide, by decide⟩
 
 end Verif.Properties.C52
